@@ -102,6 +102,8 @@ func runC06() {
 		"filter(1..10, {# % 2 == 0})", "{a: [1, 2], b: {c: 1..2}}", "len(I..I)", "(I - 1)..(I - 9)", "map(3..1, {#})",
 		"len(1..(I + 3)) + len(1..(I + 3))", "len([I, S]) + len(1..(I + 2))", "len(map([1, 2], {#})) + len(0..I)", "len(0..I) + len([I, S])",
 		"len(1..6) + len(1..(I + 2))", "len(map(1..(I + 1), {[1, 2, 3]}))", "len(filter(1..8, {# > 2})) + len(2..I)",
+		// one run-time range LARGER than the default budget: a budget raised above the default must be honoured
+		"len(1..(I - I + 1000001))", "len((I - I)..(I - I + 1200000))",
 	}
 	srcs := append([]string{}, fixed...)
 	for i := 0; i < nExpr; i++ {
